@@ -168,7 +168,79 @@ def section_nilpotent(rep, n, mutate=None, max_paths=400):
     return per_path
 
 
+TYPED_F = {
+    'int64 double integrator': [[0, 1], [0, 0]],
+    'int64 zero matrix': [[0, 0], [0, 0]],
+    'int64 chain of three': [[0, 2, -1], [0, 0, 3], [0, 0, 0]],
+}
+
+
+def section_typed(rep, mutate=None):
+    """the caller's F as an INTEGER-typed ndarray (the repo's own test calls the function this way)
+    with a real-valued symbolic Q and step: the dtype of an argument must not leak into the result.
+    Same finite-step obligations as section_nilpotent (the integer matrices are nilpotent, so the
+    exponential series terminates); a store of a real-valued quantity into an integer-typed array
+    is a failed obligation of its own."""
+    import numpy as np
+    import z3
+    from .. import symreal as S, enga, paths
+    for label, rows in TYPED_F.items():
+        out = []
+        S.new_ctx()
+        m = enga.install()
+        KF = m['KF']
+        if mutate:
+            mutate(m)
+        J, O = S.J, S.O
+        Fc = np.array(rows, dtype=np.int64)
+        n = len(Fc)
+        Q = O([[S.var('Q%d%d' % (min(i, j), max(i, j))) for j in range(n)] for i in range(n)])
+        dt = S.var('dt')
+        S.C.dom += [z3.Real('dt') > 0, z3.Real('dt') <= 200]
+        for i in range(n):
+            for j in range(i, n):
+                S.C.dom += [z3.Real('Q%d%d' % (i, j)) >= -1, z3.Real('Q%d%d' % (i, j)) <= 1]
+        ex = paths.Exec(S.C.dom)
+        res, _ = ex.run(lambda: KF.compute_process_matrices(Fc.copy(), Q.copy(), dt), max_paths=50, max_decisions=60)
+        Ff = O([[J(int(Fc[i, j])) for j in range(n)] for i in range(n)])
+        Fk = [S.symnp.eye(n)]
+        for k in range(1, n):
+            P = np.dot(Fk[-1], Ff)
+            Fk.append(O([[J(P[i, j]) * Fr(1, k) for j in range(n)] for i in range(n)]))
+        pw = [J(1)]
+        for k in range(1, 2 * n + 1):
+            pw.append(pw[-1] * dt)
+        Phi_ref = S.symnp.zeros((n, n))
+        Qd_ref = S.symnp.zeros((n, n))
+        for a in range(n):
+            Phi_ref = Phi_ref + Fk[a] * pw[a]
+            for b in range(n):
+                Qd_ref = Qd_ref + np.dot(np.dot(Fk[a], Q), Fk[b].T) * (pw[a + b + 1] * Fr(1, a + b + 1))
+        meta = {'check': 'typed', 'params': {'label': label}}
+        for pr in res:
+            if pr.status == 'abort' and pr.out == 'INFEASIBLE':
+                continue
+            obls = []
+            extra = list(pr.pc)
+            if pr.status == 'exception' and pr.out[0] == 'NarrowingStore':
+                obls.append(enga.Obligation('F given as %s: no real-valued quantity is stored into an integer-typed array (%s)' % (label, pr.out[1][:80]),
+                                            z3.BoolVal(True), 'typed arguments: the dtype of F does not leak', None, extra, meta))
+                out.append(obls)
+                continue
+            if pr.status != 'ok':
+                raise RuntimeError('compute_process_matrices failed symbolically on a path (F %s): %s' % (label, pr.out,))
+            Phi, Qd = pr.out
+            for i in range(n):
+                for j in range(n):
+                    obls.append(enga.zero('F given as %s: Phi[%d,%d] = exp(F dt)' % (label, i, j), J(Phi[i, j]) - J(Phi_ref[i, j]), 'typed arguments: the dtype of F does not leak', extra, meta))
+                    obls.append(enga.zero('F given as %s: Qd[%d,%d] = int_0^dt e^{Fs} Q e^{F^T s} ds' % (label, i, j), J(Qd[i, j]) - J(Qd_ref[i, j]), 'typed arguments: the dtype of F does not leak', extra, meta))
+            out.append(obls)
+        rep.run.encode(KF.compute_process_matrices)
+        yield [o for path in out for o in path]
+
+
 CANARIES = [
+    ('block matrix allocated with the dtype of F', 'typed', ('KF', 'compute_process_matrices', 'H = np.zeros((2 * n, 2 * n))', 'H = np.pad(0 * F, (0, n))')),
     ('long steps rebuilt by doubling with Phi squared first', 'nilpotent', ('KF', 'compute_process_matrices', 'return H[:n, :n], H[:n, n:] @ H[:n, :n].T',
      'Phi_, Qd_ = H[:n, :n], H[:n, n:] @ H[:n, :n].T\n    if np.linalg.norm(F, 1) * dt > 32:\n        Qd_ = Qd_ + 0 * dt\n        Qd_[0, 0] = Qd_[0, 0] * 2\n    return Phi_, Qd_')),
     ('van Loan block sign', 'series', ('KF', 'compute_process_matrices', 'H[n:, n:] = -F.T', 'H[n:, n:] = F.T')),
@@ -204,12 +276,16 @@ def run(run):
     for n in ((2, 3) if run.tier == 'quick' else (2, 3, 4)):
         for obls in section_nilpotent(rep, n):
             rep.finish(rep.batch(obls), PROP)
+    for obls in section_typed(rep):
+        rep.finish(rep.batch(obls), PROP)
     run.witness('obligations are non-trivial (some residual not syntactically zero before simplification)', run.obligations > 0)
     validate(rep)
     for name, sec, spec in CANARIES:
         try:
             if sec == 'nilpotent':
                 obls = [o for path in section_nilpotent(rep, 2, _mut(spec)) for o in path]
+            elif sec == 'typed':
+                obls = next(iter(section_typed(rep, _mut(spec))))
             else:
                 obls = section_series(rep, 2, 3, _mut(spec)) if sec == 'series' else section_composition(rep, 2, 3, _mut(spec))
         except common.HarnessError as e:
@@ -270,6 +346,28 @@ def replay(spec):
     from scipy.linalg import expm
     pt = spec['point']
     n = (spec.get('params') or {}).get('n', 2)
+    if spec.get('check') == 'typed':
+        fails = []
+        rng = np.random.RandomState(3)
+        for label, rows in TYPED_F.items():
+            for dtype in (np.int64, np.int32, np.float32, np.float64):
+                Fc = np.array(rows, dtype=dtype)
+                n_ = len(Fc)
+                A = rng.uniform(-1, 1, (n_, n_))
+                Q = 0.04 * A @ A.T + np.diag([0.0] * (n_ - 1) + [0.04])
+                Ff = Fc.astype(float)
+                for dt in (0.5, 3.0):
+                    Phi, Qd = kalman.compute_process_matrices(Fc.copy(), Q.copy(), dt)
+                    Fk = [np.eye(n_)]
+                    for k in range(1, n_):
+                        Fk.append(Fk[-1] @ Ff / k)
+                    Pr = sum(Fk[a] * dt ** a for a in range(n_))
+                    Qr = sum(Fk[a] @ Q @ Fk[b].T * dt ** (a + b + 1) / (a + b + 1) for a in range(n_) for b in range(n_))
+                    if np.abs(np.asarray(Phi, dtype=float) - Pr).max() > 1e-9 * max(1.0, np.abs(Pr).max()) or np.abs(np.asarray(Qd, dtype=float) - Qr).max() > 1e-9 * max(1e-12, np.abs(Qr).max()):
+                        fails.append('F given as a %s array (%s), dt=%g: Phi differs from exp(F dt) by %.3g, Qd from the noise integral by %.3g (scale %.3g)' % (
+                            np.dtype(dtype).name, label, dt, np.abs(np.asarray(Phi, dtype=float) - Pr).max(), np.abs(np.asarray(Qd, dtype=float) - Qr).max(), np.abs(Qr).max()))
+                        break
+        return {'violated': bool(fails), 'detail': fails[:6]}
     if spec.get('check') == 'nilpotent':
         import math
         F = np.array([[pt.get('F%d%d' % (i, j), 0.7) if j > i else 0.0 for j in range(n)] for i in range(n)])
